@@ -223,11 +223,11 @@ def run_batch(res: Result, fam, members, argnames, arglists, sig, case, extra_gl
                 res.traces += 1
                 res.evaluations += 1
                 msg = same(g, w)
+                res.add_to("members_ok", f"{fam}|{m}|{sig.split('|')[0]}")  # compiled and compared (whatever the verdict)
                 if msg is not None:
                     kind = "class" if msg.startswith("class") else ("system" if msg.startswith("coordinate") else "value")
                     res.violation(f"{kind}|{fam}|{m}|{sig}", f"{m}: {msg}", dict(case, member=m, args_index=ai))
                 else:
-                    res.add_to("members_ok", f"{fam}|{m}|{sig.split('|')[0]}")
                     if isinstance(w, vector.Vector) or "xy" not in sig.split("|")[1:2]:
                         res.nontrivial += 1
     res.counters["compile_wall_s_max"] = max(res.counters.get("compile_wall_s_max", 0), time.time() - t0)
@@ -293,6 +293,15 @@ def run_shard(shard, tier):
         if dim == dimB and system == sysB and flavor == flavorB and va:
             cmpm = ["v.equal(w)", "v == w", "v.not_equal(w)", "v != w", "v.isclose(w)", "v.is_parallel(w)"]
             run_batch(res, fam, cmpm, ["v", "w", "a"], [(va[0], va[0], SCAL["a"])], sigstr(dim, system, flavor, dimB, sysB, flavorB), case)
+            # a pair that differs in its first stored coordinate only (3.5 vs 3.675): whether it is close depends on which of the two
+            # tolerances is the relative one, in both operand orders
+            st = list(L.system_of(va[0])[1])
+            st[0] = 3.5
+            v1 = B.make_obj(system, flavor, tuple(st))
+            st[0] = 3.675
+            w1 = B.make_obj(system, flavor, tuple(st))
+            tolm = ["v.isclose(w, 0.1, 1e-9)", "v.isclose(w, 1e-9, 0.1)", "v.isclose(w, rtol=0.1, atol=1e-9)", "v.isclose(w, atol=0.1, rtol=1e-9)", "v.isclose(w)", "v.equal(w)", "v != w"]
+            run_batch(res, fam, tolm, ["v", "w", "a"], [(v1, w1, SCAL["a"]), (w1, v1, SCAL["a"])], sigstr(dim, system, flavor, dimB, sysB, flavorB) + "|tolerance-pair", dict(case, pair="tolerance"))
     elif fam == "P4":
         names = L.field_names(system)
         for fl in ("generic", "momentum"):
